@@ -126,14 +126,23 @@ func (l *eventLog) snapshot() []Event {
 type fakeSource struct {
 	feats []*fakeFeature
 	d     delayer
+	long  map[int]int // feature index -> seconds (virtual-time stream)
+}
+
+func longSleep(sec int) {
+	if sec > 0 {
+		time.Sleep(time.Duration(sec) * time.Second)
+	}
 }
 
 func (s *fakeSource) ReadFeatures(out chan<- processing.Feature) {
-	for _, f := range s.feats {
+	for i, f := range s.feats {
 		s.d.pause()
+		longSleep(s.long[i])
 		out <- f
 	}
 	s.d.pause()
+	longSleep(s.long[len(s.feats)])
 	close(out)
 }
 
@@ -147,6 +156,8 @@ type fakeTarget struct {
 	orig     map[*fakeFeature]bool
 	byCols   func(cols []interface{}) *fakeFeature
 	done     atomic.Bool
+	long     map[int]int // k-th received feature -> seconds of handling (virtual-time stream)
+	nrecv    int
 }
 
 func digestGeometry(g geom.Geometry, orig *fakeFeature, nilID func() (uint64, bool)) string {
@@ -222,6 +233,8 @@ func (t *fakeTarget) WriteFeatures(in <-chan processing.Feature) {
 			t.log.add(e)
 		}
 		t.d.pause()
+		longSleep(t.long[t.nrecv])
+		t.nrecv++
 		if t.logLate {
 			t.log.add(e)
 		}
@@ -232,6 +245,9 @@ func (t *fakeTarget) WriteFeatures(in <-chan processing.Feature) {
 	t.log.add(Event{K: "finish", TM: t.tm})
 	t.done.Store(true)
 }
+
+// vtMode: this process runs the scenarios inside testing/synctest bubbles (vt_test.go)
+var vtMode bool
 
 var leaksSeen int // leak findings reported by this process so far
 
@@ -271,11 +287,17 @@ func runScenario(sc Scenario, watchdog time.Duration) Result {
 	}
 	evlog := &eventLog{}
 	src := &fakeSource{feats: feats, d: delayer{rand.New(rand.NewSource(r.Int63())), sc.Delays.Source}}
+	long := sc.Long
+	if long == nil {
+		long = &LongPauses{}
+	}
+	src.long = long.Source
 	targets := map[int]processing.Target{}
 	fts := map[int]*fakeTarget{}
 	for _, t := range sc.Targets {
 		ft := &fakeTarget{tm: t, log: evlog, d: delayer{rand.New(rand.NewSource(r.Int63())), sc.Delays.Target[t]},
 			finishUs: sc.Delays.Finish[t], logLate: sc.Delays.LogLate, byCols: byCols}
+		ft.long = long.Target[t]
 		tmKey := fmt.Sprint(t)
 		ft.nilFor = func(featIdx int) (uint64, bool) {
 			if featIdx >= 0 && featIdx < len(sc.Features) {
@@ -308,6 +330,7 @@ func runScenario(sc Scenario, watchdog time.Duration) Result {
 			return out
 		}
 		idx, part := int(-p[0][0][0])-1, int(p[0][0][1])
+		longSleep(long.Snap[idx])
 		if idx < 0 || idx >= len(sc.Features) || part < 0 || part >= len(sc.Features[idx].Parts) {
 			unknown.Add(1)
 			return out
@@ -351,6 +374,9 @@ func runScenario(sc Scenario, watchdog time.Duration) Result {
 	}
 	// let late targets finish (only happens when ProcessFeatures returned early), so that the history is complete
 	lateWait := watchdog
+	if vtMode { // virtual time: the watchdog is a thousand hours; the polling below must stay short
+		lateWait = 2 * time.Second
+	}
 	if lateExpired >= 2 { // targets that never finish were already seen twice (and are reported): do not wait a full watchdog period for every further run
 		lateWait = 150 * time.Millisecond
 	}
